@@ -578,6 +578,30 @@ def digest_eq(d1, d2, ctx):
 
 _same_vars = {}
 EQ_PAIRS = {}      # name of an abstract equality variable -> (var, left, right)
+SHARED_PREFIX = {}  # frozenset({blob name, blob name}) -> number of leading hex digits their digests share (scenario choice)
+
+
+def _whole_blob_name(d):
+    c = d.content
+    if d.raw is None and c is not None and len(c.segs) == 1 and isinstance(c.segs[0], BlobSeg):
+        s_ = c.segs[0]
+        if (not is_sym(s_.a)) and s_.a == 0 and _same_term(s_.b, s_.blob.len):
+            return s_.blob.name
+    return None
+
+
+def shares_prefix(a, b):
+    """Two hex slices of digests (same algorithm, same slice) of blobs the scenario declared to fall into the
+    same shard directory."""
+    if not SHARED_PREFIX or a.kind != "hex" or b.kind != "hex" or a.a is None or (a.a, a.b) != (b.a, b.b):
+        return False
+    if a.payload.algo != b.payload.algo:
+        return False
+    n1, n2 = _whole_blob_name(a.payload), _whole_blob_name(b.payload)
+    if n1 is None or n2 is None or n1 == n2:
+        return False
+    n = SHARED_PREFIX.get(frozenset((n1, n2)))
+    return n is not None and a.b <= n
 
 
 def same_blob_var(b1, b2):
@@ -682,6 +706,8 @@ def _content_eq_inner(c1, c2, ctx):
                 conds.append(a.bv == b.bv)
             elif isinstance(a, Atom) and isinstance(b, Atom) and a.kind == b.kind and a.kind in ("hex", "b64") \
                     and (a.a, a.b) == (b.a, b.b):
+                if shares_prefix(a, b):
+                    continue
                 e = digest_eq(a.payload, b.payload, ctx)
                 if e is False:
                     return False
@@ -709,6 +735,8 @@ def _content_eq_inner(c1, c2, ctx):
                 return False
             break
         if isinstance(a, Atom) and isinstance(b, Atom) and a.kind == b.kind and a.kind in ("hex", "b64") and (a.a, a.b) == (b.a, b.b):
+            if shares_prefix(a, b):
+                continue
             e = digest_eq(a.payload, b.payload, ctx)
             if e is False:
                 return False
